@@ -33,7 +33,9 @@ import msexec as X  # noqa: E402
 
 LEVEL = "other"
 MS = model.MS
-CTX = {"segwitv0": "miniscript::context::Segwitv0", "tap": "miniscript::context::Tap"}
+CTX = {"segwitv0": "miniscript::context::Segwitv0", "tap": "miniscript::context::Tap",
+       # (the two pre-segwit contexts are used by C08's compiler rule only: C06's families are segwit v0 / tapscript)
+       "legacy": "miniscript::context::Legacy", "bare": "miniscript::context::BareCtx"}
 WR = "asc dvjntlu".replace(" ", "")
 
 
